@@ -224,7 +224,7 @@ func TestC07(t *testing.T) {
 	defer r.Finish(t)
 	rebuilds, procs := 12, 4
 	if r.Thorough() {
-		rebuilds, procs = 40, 16
+		rebuilds, procs = 40, 8
 	}
 	r.Rule(fmt.Sprintf("rapid-generated recipes rich in maps (Dicts of 2..12 pairs nested up to 3 deep with literal / identifier / call / qualified keys and values over paths competing for one name, Tags of 2..8 keys, ImportNames tables of 5..200 entries, import sets of 2..15 paths, random File settings) plus random DSL trees and plausible programs; each recipe is built from scratch and rendered %d times in one process and, for one recipe in 20, in %d separate processes; all results (bytes or error text) must be equal; non-trivial = a map with >= 2 entries or >= 2 imports; distinct by recipe", rebuilds, procs))
 	r.Assume("map iteration orders are sampled by repetition, not enumerated: the Go runtime does not let a program choose them")
@@ -238,13 +238,13 @@ func TestC07(t *testing.T) {
 		}
 		return c
 	}
-	hx.Rapid(r, t, hx.Check[Case]{Name: "map_rich", Fn: check}, r.N(400, 3000), func(rt *rapid.T) Case {
+	hx.Rapid(r, t, hx.Check[Case]{Name: "map_rich", Fn: check}, r.N(400, 1500), func(rt *rapid.T) Case {
 		c := mk(mapRich(rt), rt)
 		r.NonTrivial(recipe.JSON(c.File))
 		r.Class("map_rich")
 		return c
 	})
-	hx.Rapid(r, t, hx.Check[Case]{Name: "plausible_program", Fn: check}, r.N(200, 1500), func(rt *rapid.T) Case {
+	hx.Rapid(r, t, hx.Check[Case]{Name: "plausible_program", Fn: check}, r.N(200, 600), func(rt *rapid.T) Case {
 		f := gen.FileSettings(rt)
 		k := rapid.IntRange(1, 4).Draw(rt, "ndecls")
 		for i := 0; i < k; i++ {
@@ -253,7 +253,7 @@ func TestC07(t *testing.T) {
 		r.Class("plausible_program")
 		return mk(f, rt)
 	})
-	hx.Rapid(r, t, hx.Check[Case]{Name: "random_tree", Fn: check}, r.N(200, 1500), func(rt *rapid.T) Case {
+	hx.Rapid(r, t, hx.Check[Case]{Name: "random_tree", Fn: check}, r.N(200, 600), func(rt *rapid.T) Case {
 		f := gen.FileSettings(rt)
 		f.Body = append(f.Body, gen.Tree(rt, 4, 5))
 		r.Class("random_tree")
